@@ -1,4 +1,5 @@
 import VivProofs.SchedEmit
+import VivProofs.InitLemmas
 import VivProofs.SchedReplay
 /-!
 # C12 — the emitted history is a faithful, ordered sequence of state snapshots
@@ -149,5 +150,83 @@ example :
       (fun s => s.log.filterMap (fun e => match e with | .emit t r => some (t, r) | _ => none))) =
       some [(0, [("x", 0)]), (5, [("x", 1)]), (10, [("x", 2)])] := by
   rfl
+
+end VivProps.C12
+
+/-! ## Flags set for a whole branch (`store_schema`, branch-level `_emit`)
+
+Theorems about `Store._apply_config` / `set_emit_value` as modelled in `VivModel/Init.lean` (the model of C15,
+tied to store.py by the Init correspondence). -/
+namespace VivProps.C12
+open Viv
+
+/-- **A flag on a branch acts on the whole branch** (`Store.set_emit_value` from a branch node, reached
+by a branch-level `_emit` in a schema or in the engine's `store_schema`): every variable below the
+branch gets the flag, the other attributes of those variables, every node outside the branch and the
+shape of the tree stay as they are. -/
+theorem branch_emit_acts_on_whole_branch (t : Tree) (pos : Path) (e : Val) :
+    (setEmitBelow t pos e).map (·.1) = t.map (·.1) ∧
+    ∀ q n, (q, n) ∈ t →
+      (q, if Tree.below pos q && !t.hasInner q then { n with emit := e } else n) ∈
+        setEmitBelow t pos e := by
+  constructor
+  · unfold setEmitBelow
+    rw [List.map_map]
+    apply List.map_congr_left
+    intro en _
+    simp only [Function.comp]
+    split <;> rfl
+  · intro q n h
+    unfold setEmitBelow
+    refine List.mem_map.mpr ⟨(q, n), h, ?_⟩
+    simp only
+    split <;> rfl
+
+theorem below_self (p : Path) : Tree.below p p = false := by
+  simp [Tree.below]
+
+theorem get_map_keep (t : Tree) (pos : Path) (F : Path × NodeRec → Path × NodeRec)
+    (hkey : ∀ en, (F en).1 = en.1) (hsame : ∀ en, en.1 = pos → F en = en) :
+    Tree.get (t.map F) pos = t.get pos := by
+  induction t with
+  | nil => rfl
+  | cons hd tl ih =>
+    obtain ⟨q, m⟩ := hd
+    by_cases hq : q = pos
+    · subst hq
+      have := hsame (q, m) rfl
+      simp only [List.map_cons, Tree.get, this, if_true]
+    · have hk := hkey (q, m)
+      simp only [List.map_cons]
+      cases hF : F (q, m) with
+      | mk q' m' =>
+        rw [hF] at hk
+        simp only at hk
+        subst hk
+        simp only [Tree.get, hq, if_false, ih]
+
+/-- the node the flag is set from is itself untouched -/
+theorem get_setEmitBelow_self (t : Tree) (pos : Path) (e : Val) :
+    (setEmitBelow t pos e).get pos = t.get pos := by
+  unfold setEmitBelow
+  apply get_map_keep
+  · intro en; simp only; split <;> rfl
+  · intro en hen
+    simp only [hen, below_self, Bool.false_and, Bool.false_eq_true, if_false]
+
+/-- **`store_schema={… branch: {'_emit': e}}`**: applying the configuration `{'_emit': e}` to a branch node
+(`Store._apply_config`, which is what the engine does with `store_schema`) is exactly
+`setEmitBelow`: it sets the flag of every variable below the branch and changes nothing else. -/
+theorem store_schema_branch_emit (reg : Reg) (t : Tree) (pos : Path) (e : Val) (n : NodeRec)
+    (hget : t.get pos = some n) (hinner : t.hasInner pos = true) (htopo : n.topology.truthy = false) :
+    applyConfig reg t pos (.dict [("_emit", e)]) = .ok (setEmitBelow t pos e) := by
+  have hsp : applySpecial reg n [("_emit", e)] = .ok n := by
+    simp [applySpecial, KV.lookup, bind, Except.bind, pure, Except.pure]
+  have hset : t.set pos n = t := set_get_self hget
+  have hget2 : (setEmitBelow t pos e).get pos = some n := by rw [get_setEmitBelow_self, hget]
+  have hset2 : (setEmitBelow t pos e).set pos n = setEmitBelow t pos e := set_get_self hget2
+  unfold applyConfig
+  simp [KV.erase, hget, hsp, hset, hinner, KV.has, KV.lookup, poppedKeys, hasSchemaKey, Generated.schemaKeys,
+    applyConfig.kids, hset2, hget2, htopo]
 
 end VivProps.C12
